@@ -518,6 +518,7 @@ struct Cfg {
     RKind r;
     bool third = false;  // a short lived third session (enter; leave)
     bool fine = false;   // tree accesses are choice points too
+    bool pre = false;    // the writer's session is already open (in slot 1, slot 0 free again) when the threads start
     int ehz = 3, ghz = 2;
 };
 
@@ -536,6 +537,7 @@ public:
     std::string problem, problem_sym;
     std::string key, key2;
     status wst{}, rst{};
+    Token pre_token = nullptr;
 
     std::string name() override { return label; }
     int nthreads() override {
@@ -587,6 +589,14 @@ public:
         ykc::build_shape(*sh, t, ti);
         leave(t);
         ykc::drain_retired(); // nothing retired by the setup may be attributed to the sessions under test
+        pre_token = nullptr;
+        if (cfg.pre) {
+            // sessions in different slots: a short session took slot 0 and left again, the writer sits in slot 1
+            Token dummy{};
+            enter(dummy);
+            enter(pre_token);
+            leave(dummy);
+        }
     }
 
     void note(const std::string& sym, const std::string& d) {
@@ -635,10 +645,12 @@ public:
         }
         if (tid == 0) {
             // writer session
-            Token t{};
-            ykmc::op_begin();
-            enter(t);
-            ykmc::op_end();
+            Token t = pre_token;
+            if (t == nullptr) {
+                ykmc::op_begin();
+                enter(t);
+                ykmc::op_end();
+            }
             ykmc::op_begin();
             switch (cfg.w) {
                 case W_OVERWRITE: wst = ykc::t_put(t, ti, key, ykc::val_of(key, 3)); break;
@@ -783,18 +795,23 @@ static void scenarios(std::vector<hm::Scenario>& out) {
                          {W_REMOVE_LAST_OF_NODE, R_SCAN_NV, false}, {W_COLLAPSE, R_GETMISS_NV, false}, {W_REMOVE_LAST_OF_NODE, R_GET, false},
                          {W_OVERWRITE, R_PUT_CREATED, false}};
     for (auto& p : ps) {
-        for (int third = 0; third < 2; ++third) {
+        for (int third = 0; third < 4; ++third) {
+            bool pre = third >= 2;
+            bool short_epoch = third == 3; // the epoch thread parks after one period: the gc pass that follows is a free choice
+            if (pre && !(p.quick)) continue;
             hm::Scenario sc;
-            sc.name = std::string("epoch/coarse/") + wn[p.w] + "-vs-" + rn[p.r] + (third != 0 ? "+third" : "");
+            sc.name = std::string("epoch/coarse/") + wn[p.w] + "-vs-" + rn[p.r] + (third == 1 ? "+third" : (short_epoch ? "+pre+e1" : (pre ? "+pre" : "")));
             sc.sigclass = std::string("epoch:") + wn[p.w] + "-vs-" + rn[p.r];
             sc.bound_quick = 2;
-            sc.bound_thorough = (p.quick && third == 0) ? 3 : 2;
-            sc.quick = p.quick && (third == 0 || (p.w == W_REMOVE && p.r == R_GET));
+            sc.bound_thorough = (p.quick && third != 1) ? 3 : 2;
+            sc.quick = p.quick && (third != 1 || (p.w == W_REMOVE && p.r == R_GET));
             sc.cls_mask = (1u << ykmc::C_SESSION) | (1u << ykmc::C_EPOCH) | (1u << ykmc::C_GCQ) | (1u << ykmc::C_STOP) | (1u << ykmc::C_HARNESS);
             Cfg c;
             c.w = p.w;
             c.r = p.r;
-            c.third = third != 0;
+            c.third = third == 1;
+            c.pre = pre;
+            if (short_epoch) c.ehz = 1;
             std::string nm = sc.name;
             sc.make = [c, nm]() {
                 auto h = std::make_unique<H>();
